@@ -572,7 +572,7 @@ pub const ERRNOS: &[i32] = &[
 ];
 
 #[derive(Clone, Debug)]
-enum Fault {
+pub enum Fault {
     /// the k-th call fails with errno
     Single(usize, i32),
     /// every call that returns a descriptor fails with EMFILE from index k on
@@ -585,7 +585,7 @@ enum Fault {
     EagainFirst(usize),
 }
 
-struct Faulter(Fault, usize);
+pub struct Faulter(pub Fault, pub usize);
 
 fn returns_fd(kind: &str) -> bool {
     matches!(kind, "openat" | "openat2" | "dup" | "fsopen" | "fsmount" | "open_tree" | "dir_open")
